@@ -51,6 +51,7 @@ type Checked struct {
 	cbExpected   map[int]bool
 	registeredAt map[int]int
 	curClosure   *Closure
+	lastInv      map[int]*invSummary
 	rejKeys      []Key
 	R3           bool // a decorator-introduced key (decorated, never provided) was live at some Invoke
 	groupSeen    map[groupReq]int
@@ -136,6 +137,17 @@ func (c *Checked) Step(i int) {
 	c.checkLogRules(i, op, res, evs)
 	c.checkErrorFacts(i, op, res, evs)
 	c.checkCallbacks(i, op, res, evs)
+
+	c.checkInfo(i, op, res, evs)
+	if op.Kind == OpInvoke && !c.H.Cfg.DryRun {
+		c.summariseInvoke(i, op, res, evs)
+	}
+	if op.Kind == OpVisualize {
+		c.checkDot(i, op, res)
+	}
+	if op.Kind == OpString && res.Facts.Escaped {
+		c.viol(i, "string-panic", firstLine(res.Facts.EscText), "C14")
+	}
 
 	// ---- oracles that need the model (state before the op)
 	if c.modelOK() && !c.H.Cfg.DryRun {
@@ -1121,4 +1133,135 @@ func (c *Checked) skippedOptional(cons Consumer, lp []LeafParam, fn int) bool {
 	}
 	params(cons, lp)
 	return !need[fn]
+}
+
+// ---------------------------------------------------------------- introspection (C18)
+
+func expInput(p LeafParam) string {
+	t := TypeName(p.Key.T)
+	var toks []string
+	if p.Key.IsGroup() {
+		if p.NamedSlice && !IsIface(p.Key.T) {
+			t = fmt.Sprintf("sim.KS%d", p.Key.T)
+		} else {
+			t = "[]" + t
+		}
+	}
+	if p.Opt {
+		toks = append(toks, "optional")
+	}
+	if p.Key.Name != "" {
+		toks = append(toks, fmt.Sprintf("name = %q", p.Key.Name))
+	}
+	if p.Key.Group != "" {
+		toks = append(toks, fmt.Sprintf("group = %q", p.Key.Group))
+	}
+	if len(toks) == 0 {
+		return t
+	}
+	return fmt.Sprintf("%v[%v]", t, strings.Join(toks, ", "))
+}
+
+func expOutputs(f *Func) []string {
+	var out []string
+	for _, r := range f.LeafResults() {
+		for _, k := range r.Keys {
+			t := TypeName(k.T)
+			if k.IsGroup() && f.Role == RoleDec {
+				t = "[]" + t
+			}
+			var toks []string
+			if k.Name != "" {
+				toks = append(toks, fmt.Sprintf("name = %q", k.Name))
+			}
+			if k.Group != "" {
+				toks = append(toks, fmt.Sprintf("group = %q", k.Group))
+			}
+			if len(toks) == 0 {
+				out = append(out, t)
+			} else {
+				out = append(out, fmt.Sprintf("%v[%v]", t, strings.Join(toks, ", ")))
+			}
+		}
+	}
+	return out
+}
+
+// catIDs remembers, across all histories of this process, the ID dig assigned
+// to each catalogue function: equal function => equal ID, distinct => distinct.
+var (
+	catIDs   = map[int]int{}
+	catIDRev = map[int]int{}
+)
+
+func eqStr(a, b []string) bool {
+	if len(a) != len(b) {
+		return false
+	}
+	for i := range a {
+		if a[i] != b[i] {
+			return false
+		}
+	}
+	return true
+}
+
+func (c *Checked) checkInfo(i int, op Op, res *OpResult, evs []Event) {
+	if res.Info == nil || (op.Kind != OpProvide && op.Kind != OpDecorate && op.Kind != OpInvoke) {
+		return
+	}
+	f := &c.H.Funcs[op.Fn]
+	info := res.Info
+	var wantIn []string
+	for _, p := range f.LeafParams() {
+		wantIn = append(wantIn, expInput(p))
+	}
+	if op.Kind == OpInvoke {
+		entered := false
+		for _, e := range evs {
+			if e.Kind == EvEnter && e.Fn == f.ID {
+				entered = true
+			}
+		}
+		if !entered && !c.H.Cfg.DryRun {
+			return
+		}
+		if res.Verdict != VOK && c.H.Cfg.DryRun {
+			return
+		}
+		c.probe("info_invoke")
+		if !eqStr(info.Inputs, wantIn) {
+			c.viol(i, "info-inputs", fmt.Sprintf("InvokeInfo of %s: inputs %q, declared %q", f, info.Inputs, wantIn), "C18")
+		}
+		return
+	}
+	if res.Verdict != VOK {
+		c.probe("info_rejected")
+		if info.Touched {
+			c.viol(i, "info-touched-on-reject", fmt.Sprintf("%s of %s was rejected (%s) but its Info struct was written: id=%d inputs=%q outputs=%q", op.Kind, f, res.Verdict, info.ID, info.Inputs, info.Outputs), "C18", "C06")
+		}
+		return
+	}
+	c.probe("info_accepted")
+	if len(wantIn) >= 3 {
+		c.probe("info_inputs>=3")
+	}
+	if !eqStr(info.Inputs, wantIn) {
+		c.viol(i, "info-inputs", fmt.Sprintf("%s of %s: Info inputs %q, declared %q", op.Kind, f, info.Inputs, wantIn), "C18")
+	}
+	wantOut := expOutputs(f)
+	if !eqStr(info.Outputs, wantOut) {
+		c.viol(i, "info-outputs", fmt.Sprintf("%s of %s: Info outputs %q, declared %q", op.Kind, f, info.Outputs, wantOut), "C18")
+	}
+	if f.Cat >= 0 {
+		c.probe("info_catalog_id")
+		if id, ok := catIDs[f.Cat]; ok && id != info.ID {
+			c.viol(i, "info-id-unstable", fmt.Sprintf("catalogue function %d got ID %d now and %d earlier", f.Cat, info.ID, id), "C18")
+		}
+		if other, ok := catIDRev[info.ID]; ok && other != f.Cat {
+			c.viol(i, "info-id-collision", fmt.Sprintf("catalogue functions %d and %d share ID %d", f.Cat, other, info.ID), "C18")
+		}
+		catIDs[f.Cat] = info.ID
+		catIDRev[info.ID] = f.Cat
+	}
 }
